@@ -310,7 +310,7 @@ def literal_is_its_text(ctx):
             env[pid["column_expr"]] = expr
             for p in ps:
                 if p.get("name") == "file_map":
-                    env[p["id"]] = {}
+                    env[p["id"]] = interp.HMap()
             want = ("-" if minus else "") + text
             n += 1
             try:
@@ -332,3 +332,50 @@ def literal_is_its_text(ctx):
                               "what the string functions and the text comparisons must see" % (text, " with a leading minus" if minus else "", got_text, want))
                 return
     ctx.covered("literal expressions evaluated through get_column_expr_value (text preserved)", n, distinct_keys=texts, exhaustive=True)
+
+
+def lexems_are_kept(ctx):
+    """X-LEXEMS: Parser::parse hands every lexem of the query to the grammar, except empty quoted strings: the statement that
+    stores (or drops) a lexem is evaluated for quoted strings that are empty, blank, ordinary, and for other lexem kinds"""
+    import interp
+    name = "parser::Parser::parse"
+    h = ctx.anchor_hir(name)
+    pushes = [c for c in walk_exprs(h) if c["k"] == "MCall" and c["m"] == "push" and render(c["recv"]).endswith("self.lexems")]
+    if len(pushes) != 1:
+        ctx.violation("lexems/anchor", ctx.where(name), "the statement storing the lexems of the query was not found (%d candidates)" % len(pushes))
+        return
+    chain = path_to(h, pushes[0]) or []
+    # the outermost conditional construct around the push inside the lexing loop
+    stmt = None
+    seen_loop = False
+    for a, _k in chain:
+        if a["k"] == "Loop":
+            seen_loop = True
+        elif seen_loop and a["k"] in ("Match", "If") and not str(a.get("src", "")).startswith(("WhileLet", "ForLoop", "WhileDesugar")) and \
+                any(y is pushes[0] for y in walk_exprs(a)) and "next_lexem" not in render(a.get("scrut", a.get("c", a))):
+            stmt = a
+            break
+    if stmt is None:
+        stmt = pushes[0]
+    var = next((y.get("name") for y in walk_exprs(stmt) if y["k"] == "Path" and y.get("rk") == "Local" and "Lexem" in str(y.get("ty", ""))), "lexem")
+    n = 0
+    cases = [(interp.V("Lexem::String", [""]), False), (interp.V("Lexem::String", [" "]), True), (interp.V("Lexem::String", ["\t "]), True),
+             (interp.V("Lexem::String", ["x"]), True), (interp.V("Lexem::RawString", ["name"]), True), (interp.V("Lexem::RawString", [""]), True),
+             (interp.V("Lexem::Comma"), True), (interp.V("Lexem::Operator", ["="]), True)]
+    for lx, kept in cases:
+        selfv = {"lexems": []}
+        try:
+            interp.eval_in(h, stmt, {"self": selfv, var: lx}, prog=ctx.prog)
+        except interp.Undecided as e:
+            ctx.obligation(False)
+            ctx.violation("lexems/unreadable", ctx.where(name, stmt), "cannot evaluate the statement storing a lexem: %s" % e)
+            return
+        n += 1
+        got = selfv["lexems"] == [lx]
+        ok = got == kept and (kept or selfv["lexems"] == [])
+        ctx.obligation(ok)
+        if not ok:
+            ctx.violation("lexems/%s" % ("dropped" if kept else "empty-string-kept"), ctx.where(name, stmt),
+                          "the lexem %r is %s: only an empty quoted string is left out (a blank one is a value: format_size(size, ' '), "
+                          "replace(name, ' ', '_'))" % (lx, "dropped" if kept else "kept"))
+    ctx.covered("lexems handed to the grammar by Parser::parse (8 lexem shapes)", n, distinct_keys=["String", "RawString", "Comma", "Operator"], exhaustive=True)
